@@ -46,6 +46,9 @@ def run(ctx: Ctx):
     provenance(ctx)
     mask(ctx)
     ranges(ctx)
+    from .common import generic_lints
+
+    generic_lints(ctx)
 
 
 # --------------------------------------------------------------------------- layouts
